@@ -438,10 +438,21 @@ func (idx *KVIndex) FieldTermNumberRange(field string, min, max float64) chan KV
 	minBytes, _ := GetTermBytes(min)
 	maxBytes, _ := GetTermBytes(max)
 	out := make(chan KVTermCount, 100)
-	defer close(out)
 	if min > max {
+		close(out)
 		return out
 	}
+	// produce in the background: the caller starts reading only after this
+	// function has returned, so a synchronous producer blocks for ever once
+	// more terms fall into the window than the channel buffers
+	go func() {
+		defer close(out)
+		idx.fieldTermNumberRange(field, min, max, minBytes, maxBytes, out)
+	}()
+	return out
+}
+
+func (idx *KVIndex) fieldTermNumberRange(field string, min, max float64, minBytes, maxBytes []byte, out chan KVTermCount) {
 
 	if min < 0 {
 		minPrefix := EntryValuePrefix(field, TermNumber, minBytes)
@@ -498,5 +509,4 @@ func (idx *KVIndex) FieldTermNumberRange(field string, min, max float64) chan KV
 		})
 	}
 
-	return out
 }
